@@ -135,7 +135,7 @@ func stretchPeriods(ctx sdk.Context, periods sdkvesting.Periods, stretchDays int
 	extraPeriodsAmount := extraPeriods.TotalAmount().AmountOf(Denom)
 
 	calculationDiff := totalAmount.Sub(updatedPeriodsAmount.Add(extraPeriodsAmount))
-	extraPeriods[stretchDays-1].Amount.Add(sdk.NewCoin(Denom, calculationDiff))
+	extraPeriods[stretchDays-1].Amount = extraPeriods[stretchDays-1].Amount.Add(sdk.NewCoin(Denom, calculationDiff))
 
 	return append(updatedPeriods, extraPeriods...)
 }
